@@ -123,7 +123,10 @@ def gen(rng: random.Random, tier: str, idx: int) -> dict:
             site = rng.choice([("get", "META"), ("get", "HINT"), ("get", "MLIST"), ("get", "MANIFEST"), ("get", "DATA")])
         pol["holds"] = [{"actor": f"r{rng.randrange(nr)}", "op": site[0], "cls": site[1], "nth": rng.choice([1, 2, 2, 3, 4]),
                          "until": f"w{rng.randrange(nw)}", "until_ops": 1}]
-    return {"backend": backend, "setup": setup, "actors": actors, "policy": pol, "faults": faults}
+    plan = {"backend": backend, "setup": setup, "actors": actors, "policy": pol, "faults": faults}
+    if any(a["role"] == "reader" and a["proc"].startswith("pw") for a in actors) and rng.random() < 0.5:
+        plan["preempt_p"] = rng.choice([0.002, 0.01, 0.05])     # threads on one handle: switch between any two lines
+    return plan
 
 
 def shrink(plan: dict):
@@ -138,6 +141,9 @@ def execute(plan: dict, scratch: str, replay: Optional[dict] = None) -> dict:
     ph = Phase(plan, scratch, backend, seed, common.make_policy(plan.get("policy", {}), seed ^ 0x5EED, replay),
                faults=plan.get("faults"), start=ph0.sim.now + 1.0, store=ph0.world.store)
     w = ph.world
+    if plan.get("preempt_p"):
+        ph.sim.extra["preempt_p"] = plan["preempt_p"]
+        ph.sim.max_steps = 200000
     chk = RefineChecker(w, clauses=set())      # states only; C01 owns the refinement clauses
     s0 = w.state()
     byproc = {}
